@@ -26,6 +26,13 @@ Open Scope Qc_scope.
 Definition vec := list Qc.
 Definition mat := list vec.
 
+(* Switches: set one to `true` when the corresponding repair is in /repo (proposed_fix_C16_F*.diff).  The Impl then
+   models the repaired mechanism, the guard of that class becomes vacuous, the generator of harness/c16.py (which
+   reads these three lines) starts producing the class, and the `_refuted` lemma of the class becomes vacuous. *)
+Definition fixed_F2 : bool := false.   (* post-synaptic variable registered under its own name *)
+Definition fixed_F3 : bool := false.   (* scalar weight + coupling template -> full weight matrix *)
+Definition fixed_F8 : bool := false.   (* one ring buffer per delayed Connectivity *)
+
 Definition mkq (num : Z) (den : positive) : Qc := Q2Qc (num # den).
 Definition Qcltb (a b : Qc) : bool := negb (Qle_bool b a).
 Definition Qceqb (a b : Qc) : bool := Qeq_bool a b.
@@ -114,7 +121,7 @@ Definition case0a (W : mat) (s : vec) : vec :=
 
 (* the post-synaptic variable shadows a source variable of the same name (single input, two different populations) *)
 Definition collides (N : popnet) (c : conn) : bool :=
-  is_mat (cw c) && uses_post (ccpl c) && negb (csrc c =? ctgt c)%nat && (csv c =? cpv c)%nat
+  negb fixed_F2 && is_mat (cw c) && uses_post (ccpl c) && negb (csrc c =? ctgt c)%nat && (csv c =? cpv c)%nat
   && (n_into N (ctgt c) (ctv c) =? 1)%nat.
 
 Definition pop_source (N : popnet) (hist : list nstate) (c : conn) : vec :=
@@ -278,8 +285,26 @@ Definition init_edges (N : popnet) (v0 : Qc) : list mat :=
 Definition init_edges_exp (N : popnet) (v0 : Qc) : list mat :=
   map (fun c => if is_dyn (ccpl c) then full (size_of N (ctgt c)) (size_of N (csrc c)) v0 else []) (conns N).
 
+(* repair F3: a scalar weight that comes with a coupling template is expanded to the full (nt x ns) matrix *)
+Definition is_plain (k : coupling) : bool := match k with CPlain => true | _ => false end.
+Definition norm_conn (N : popnet) (c : conn) : conn :=
+  match cw c with
+  | WScal w => if fixed_F3 && negb (is_plain (ccpl c))
+               then {| csrc := csrc c; csv := csv c; ctgt := ctgt c; ctv := ctv c;
+                       cw := WMat (repeat (repeat w (size_of N (csrc c))) (size_of N (ctgt c)));
+                       ccpl := ccpl c; cpv := cpv c; cdelay := cdelay c |}
+               else c
+  | WMat _ => c
+  end.
+Definition norm (N : popnet) : popnet := {| pops := pops N; conns := map (norm_conn N) (conns N) |}.
+
 Definition pop_run (U : unitfn) (N : popnet) (units : list pstate) (dt : Qc) (rows : nat) : option (list (list pstate)) :=
-  if loud N then None else Some (traj (pop_deriv U N) dt (units, init_edges N 0) rows).
+  let N' := norm N in
+  if loud N' then None else Some (traj (pop_deriv U N') dt (units, init_edges N' 0) rows).
+(* the right-hand side at one state (what the function returned by get_run_func computes), edge states at v0 = 0 *)
+Definition pop_rhs (U : unitfn) (N : popnet) (units : list pstate) : option (list pstate) :=
+  let N' := norm N in
+  if loud N' then None else Some (fst (pop_deriv U N' ((units, init_edges N' 0) :: nil))).
 Definition exp_run (mw : Qc) (U : unitfn) (N : popnet) (units : list pstate) (dt : Qc) (rows : nat) : list (list pstate) :=
   traj (exp_deriv mw U N) dt (units, init_edges_exp N 0) rows.
 
@@ -300,9 +325,9 @@ Definition wf_units (N : popnet) (units : list pstate) : bool :=
 (* the classes on which the population circuit is NOT the explicit network (each one is refuted in C16.v) *)
 Definition g_distinct_sources (N : popnet) : bool := negb (dup_sources (conns N)).
 Definition g_coupling_shape (N : popnet) : bool := negb (existsb cpl_bad_shape (conns N)).
-Definition g_post_name (N : popnet) : bool := negb (existsb (collides N) (conns N)).
+Definition g_post_name (N : popnet) : bool := fixed_F2 || negb (existsb (collides N) (conns N)).
 Definition g_scalar_plain (N : popnet) : bool :=
-  forallb (fun c => match cw c, ccpl c with WScal _, CPlain => true | WScal _, _ => false | _, _ => true end) (conns N).
+  fixed_F3 || forallb (fun c => match cw c, ccpl c with WScal _, CPlain => true | WScal _, _ => false | _, _ => true end) (conns N).
 Definition g_not_near_one (N : popnet) : bool :=
   forallb (fun c => match cw c with WScal w => negb (near_one w) || Qceqb w 1 | _ => true end) (conns N).
 (* min_weight: every entry is either exactly 0 or above the threshold of the explicit network *)
@@ -320,7 +345,7 @@ Fixpoint delay_shared (l : list conn) : bool :=
   | [] => false
   | c :: l' => existsb (fun c2 => same_origin c c2 && has_delay c && has_delay c2) l' || delay_shared l'
   end.
-Definition g_delay_single (N : popnet) : bool := negb (delay_shared (conns N)).
+Definition g_delay_single (N : popnet) : bool := fixed_F8 || negb (delay_shared (conns N)).
 (* a delayed connection does not read a post-synaptic variable.  Connectivity delays the SOURCE only (Impl and Spec here);
    the explicit circuit with delayed scalar template edges delays the template OUTPUT, post-synaptic variable included:
    on this class the two circuits that the property compares differ (witnessed on the real code, corpus/C16). *)
@@ -332,14 +357,18 @@ Definition guards (mw : Qc) (N : popnet) : bool :=
   g_distinct_sources N && g_coupling_shape N && g_post_name N && g_scalar_plain N && g_not_near_one N &&
   g_no_alias N && g_delay_shape N && g_threshold mw N.
 (* ================================================================== the concrete unit of the correspondence run *)
-(* x' = eta - a*x + s_in + b*g_in,  z' = c*x - z   (parameters in the order eta, a, b, c) *)
+(* operator uop: x' = eta - a*x + s_in + b*g_in;  operator zop: z' = c*x - a*z with its OWN parameter `a`
+   (parameters in the order eta, uop/a, b, c, zop/a) *)
 Definition unit_poly : unitfn := fun par x z s g =>
-  (nth 0 par 0 - nth 1 par 0 * x + s + nth 2 par 0 * g, nth 3 par 0 * x - z).
+  (nth 0 par 0 - nth 1 par 0 * x + s + nth 2 par 0 * g, nth 3 par 0 * x - nth 4 par 0 * z).
 Definition cpl_id : coupling := CAlg false (fun s _ => s).
 Definition cpl_diff : coupling := CAlg true (fun s t => s - t).
 Definition cpl_prod : coupling := CAlg true (fun s t => s * t + s).
 Definition cpl_lp : coupling := CDyn false (fun s _ v => s - v).
 Definition cpl_lpd : coupling := CDyn true (fun s t v => s - t - mkq 2 1 * v).
+(* two templates with a constant of the same name `k` and different values (2 and 1/2): v' = k*u_s - v *)
+Definition cpl_lpa : coupling := CDyn false (fun s _ v => mkq 2 1 * s - v).
+Definition cpl_lpb : coupling := CDyn false (fun s _ v => mkq 1 2 * s - v).
 
 (* comparison helpers *)
 Definition vec_eqb (a b : vec) : bool :=
